@@ -5,6 +5,8 @@ Created on Jul 19, 2021
 '''
 from vsc.model.model_visitor import ModelVisitor
 from vsc.model.expr_bin_model import ExprBinModel
+from vsc.model.expr_literal_model import ExprLiteralModel
+from vsc.model.expr_fieldref_model import ExprFieldRefModel
 from vsc.visitors.is_nonrand_expr_visitor import IsNonRandExprVisitor
 from vsc.model.source_info import SourceInfo
 
@@ -33,13 +35,14 @@ class LintVisitor(ModelVisitor):
         rhs_nonrand = IsNonRandExprVisitor().is_nonrand(e.rhs)
         
         if lhs_nonrand and not rhs_nonrand:
-            lhs_v = e.lhs.val()
-            rhs_w = e.rhs.width()
-            
-#            print("lhs_v=%d rhs_w=%d" % (int(lhs_v), rhs_w))
-        elif rhs_nonrand and not lhs_nonrand:
-            rhs_v = e.rhs.val()
-            lhs_w = e.lhs.width()
+            pass
+        elif (rhs_nonrand and not lhs_nonrand and 
+              isinstance(e.rhs, (ExprLiteralModel,ExprFieldRefModel)) and
+              isinstance(e.lhs, ExprFieldRefModel)):
+            # Only a plain value compared with a plain field is checked:
+            # not every expression can be evaluated or has a known width
+            rhs_v = int(e.rhs.val())
+            lhs_w = int(e.lhs.width())
             lhs_s = e.lhs.is_signed()
             
 #            print("rhs_v=%d lhs_w=%d lhs_s=%d" % (int(rhs_v), lhs_w, int(lhs_s)))
